@@ -96,7 +96,24 @@ fn check_defs(r: &mut CheckResult, defs: &[(bool, Vec<(String, u16)>)], tag: &st
         } else {
             let kw = ["contract", "abstract contract", "library", "interface"][if members.is_empty() { k % 4 } else { k % 2 }];
             starts.push((src.len(), false, sizes));
-            src.push_str(&format!("{} C{} {{\n{}\n}}\n", kw, k, decls.join("\n")));
+            // every third contract: other members (function, event, modifier, struct) BETWEEN the state variables --
+            // the layout is determined by the variables alone, wherever they stand among the members
+            let body = if !members.is_empty() && k % 3 == 1 {
+                let mut b: Vec<String> = vec![];
+                for (i, d) in decls.iter().enumerate() {
+                    b.push(d.clone());
+                    b.push(match i % 4 {
+                        0 => format!("    function f{}_{}() public {{}}", k, i),
+                        1 => format!("    event E{}_{}(uint a);", k, i),
+                        2 => format!("    modifier md{}_{}() {{ _; }}", k, i),
+                        _ => format!("    struct T{}_{} {{ uint8 q; }}", k, i),
+                    });
+                }
+                b.join("\n")
+            } else {
+                decls.join("\n")
+            };
+            src.push_str(&format!("{} C{} {{\n{}\n}}\n", kw, k, body));
         }
     }
     let su = match solang_parser::parse(&src, 0) {
